@@ -29,6 +29,10 @@ BUDGET = {
 }
 
 
+def _has_node(t, kinds):
+    return isinstance(t, list) and bool(t) and (t[0] in kinds or any(_has_node(c, kinds) for c in t[1:]))
+
+
 @st.composite
 def cases(draw):
     spec = draw(models.model_specs(calib_types=models.CALIB_TYPES, names=draw(st.sampled_from(["free", "free", "ident"])), n_state=(1, 5), n_control=(0, 3), n_calib=(0, 2), depth=3,
@@ -41,6 +45,10 @@ def cases(draw):
             spec["trees"][s_] = ["add", spec["trees"][s_], ["ufun", ["mul", ["const", 1], inner]]]
         spec["ufun"] = True
         spec["string_form"] = []
+    if any(_has_node(t_, ("wrap", "abs2")) for t_ in spec["trees"].values()) and draw(st.booleans()):
+        # option x input class: the definitions a simplifier may get wrong (inverse compositions) meet the non-default
+        # option that runs a simplifier over the definition itself (classes that are each rare are paired on purpose)
+        spec["proactive_simplify"] = True
     if draw(st.sampled_from([False] * 7 + [True])):
         # an exact integer literal beyond 2**53, of either sign, in one update (x - 10**17, T - c**2*burn*dt, ...)
         s_ = draw(st.sampled_from(spec["state"]))
